@@ -36,6 +36,7 @@ def budget(tier):
 def _cases(draw, tier):
     mode = 'cbc' if pct(draw) < 40 else ('both' if tier == 'thorough' and pct(draw) < 15
                                          else 'eb')
+    salt = draw(strategies.salts)
     shape = draw(st.sampled_from(['mix', 'mix', 'high_targets', 'many_criteria', 'lecturer_mult']))
     kw = {}
     if shape == 'high_targets':
@@ -55,7 +56,7 @@ def _cases(draw, tier):
     else:
         opts = draw(strategies.option_sets(inst, max_crit=4))
     choices = draw(strategies.choice_lists) if mode != 'cbc' else []
-    return {'inst': inst, 'opts': opts, 'choices': choices, 'mode': mode}
+    return {'inst': inst, 'opts': opts, 'choices': choices, 'mode': mode, 'salt': salt}
 
 
 def strategy(tier):
